@@ -389,3 +389,419 @@ Proof.
   intros cfg ops s' outs H c k Hin. destruct (Inv_all_run _ _ _ _ H) as [_ HL].
   rewrite Forall_forall in HL. specialize (HL _ Hin). apply listed_In in HL. exact HL.
 Qed.
+
+(* ------------------------------------------------------------------ the way the pipeline calls Consume:
+   the first consumed commit has index 0, no other has.  d is the tick size, [first] the committer
+   time of the first analysed commit. *)
+
+Lemma tick_chain_snoc : forall t0 d l p c k,
+  tick_chain t0 d p (l ++ [(c, k)]) =
+  tick_chain t0 d p l &&
+  (k =? (if in_range t0 (c_when c) then spec_tick t0 d (last (ticks l) p) (c_when c)
+         else spec_tick_sat t0 d (last (ticks l) p) (c_when c))).
+Proof.
+  induction l as [|[c1 k1] l IH]; intros p c k; cbn [app tick_chain].
+  - cbn. rewrite andb_true_r. reflexivity.
+  - rewrite IH. change (ticks ((c1, k1) :: l)) with (k1 :: ticks l). rewrite last_cons_default.
+    rewrite andb_assoc. reflexivity.
+Qed.
+
+Lemma alone_snoc : forall t0 d l e,
+  alone t0 d (l ++ [e]) = alone t0 d l && (snd e =? elapsed_ticks t0 d (c_when (fst e))).
+Proof.
+  intros. unfold alone. rewrite forallb_app. cbn. rewrite andb_true_r. reflexivity.
+Qed.
+
+Lemma mono_times_snoc : forall first l c k,
+  mono_times first (l ++ [(c, k)]) = mono_times first l && (last (times l) first <=? c_when c).
+Proof.
+  intros. unfold mono_times. rewrite times_snoc. apply nondecreasing_snoc.
+Qed.
+
+Lemma replays_ok_snoc : forall seen x,
+  replays_ok (seen ++ [x]) =
+  replays_ok seen &&
+  forallb (fun e => negb (c_hash (fst x) =? c_hash (fst e))
+                    || ((0 <? c_parents (fst x))%nat && (c_when (fst x) =? c_when (fst e)))) seen.
+Proof.
+  induction seen as [|e seen IH]; intros x; cbn [app replays_ok forallb].
+  - reflexivity.
+  - rewrite IH, forallb_app. cbn [forallb]. rewrite andb_true_r.
+    repeat rewrite <- andb_assoc. f_equal.
+    rewrite andb_comm. repeat rewrite <- andb_assoc. f_equal. apply andb_comm.
+Qed.
+
+Definition hash_in (h : Z) (seen : list event) : bool := existsb (fun e => c_hash (fst e) =? h) seen.
+
+Lemma hash_in_snoc : forall h seen e, hash_in h (seen ++ [e]) = hash_in h seen || (c_hash (fst e) =? h).
+Proof.
+  intros. unfold hash_in. rewrite existsb_app. cbn. rewrite orb_false_r. reflexivity.
+Qed.
+
+Section Run.
+Variables (d first : Z).
+Hypothesis Hd : 0 < d.
+Let t0 := floor_time first d.
+
+Lemma t0_le_first : t0 <= first.
+Proof. apply floor_time_bounds. exact Hd. Qed.
+
+Definition R_run (br : branch) (l : list event) : Prop :=
+  tick_size br = d /\
+  tick_chain t0 d 0 l = true /\
+  (mono_times first l = true -> alone t0 d l = true).
+
+(* exactly-once listing: conditional on what the final histories and the final list of consumed
+   commits satisfy; both conditions are closed under taking prefixes *)
+Definition J (s : sys) (ls : list (list event)) (seen : list event) : Prop :=
+  Forall (fun l => mono_times first l = true) ls -> replays_ok seen = true ->
+  (forall h, reg_count (commits (sh s)) h = if hash_in h seen then 1%nat else 0%nat) /\
+  Forall (fun e => snd e = elapsed_ticks t0 d (c_when (fst e))) seen.
+
+Definition Inv_core (s : sys) (ls : list (list event)) (seen : list event) : Prop :=
+  Inv_all s ls seen /\ Forall2 R_run (brs s) ls /\ J s ls seen.
+
+(* under monotone times the last tick of a history is the un-raised tick of its last commit *)
+Lemma alone_last : forall l, alone t0 d l = true ->
+  last (ticks l) 0 <= elapsed_ticks t0 d (last (times l) first).
+Proof.
+  intros l H. destruct l as [|e l] using rev_ind.
+  - cbn. apply elapsed_nonneg; [exact Hd|apply t0_le_first].
+  - destruct e as [c k]. rewrite alone_snoc in H. apply andb_true_iff in H as [_ H].
+    apply Z.eqb_eq in H. cbn in H. rewrite ticks_snoc, times_snoc, !last_snoc. lia.
+Qed.
+
+Lemma core_consume : forall s ls seen b index c br s' r,
+  Inv_core s ls seen -> nth_error (brs s) b = Some br ->
+  new_t0 (sh s) d index c = t0 ->
+  step s (OConsume b index c) = (s', r) ->
+  Inv_core s' (lin_step ls (OConsume b index c) r) (seen ++ ev_of (OConsume b index c) r) /\ tick0 (sh s') = t0.
+Proof.
+  intros s ls seen b index c br s' r [HA [HR HJ]] Eb Ht0 H.
+  pose proof (Inv_all_step _ _ _ _ _ _ I HA H) as HA'.
+  cbn [step] in H. rewrite Eb in H.
+  destruct (consume_branch (sh s) br index c) as [[sh' br'] k] eqn:Ec.
+  injection H as <- <-. cbn [ev_of lin_step sh brs] in *.
+  destruct (Forall2_nth_error _ _ _ _ _ _ _ HR Eb) as [l [El [Hsz [Hch Hal]]]]. rewrite El in *.
+  destruct HA as [HM HL].
+  destruct (Forall2_nth_error _ _ _ _ _ _ _ HM Eb) as [l' [El' [Hnd Hprev]]].
+  rewrite El in El'. injection El' as <-.
+  destruct (consume_branch_tick _ _ _ _ _ _ _ Ec) as [Hk [Hp' [Hsz' Ht0']]].
+  rewrite Hsz in *. rewrite Ht0 in *. rewrite raw_tick_pos in Hk by exact Hd.
+  assert (Hp0 : 0 <= previous_tick br) by (rewrite Hprev; apply nondecreasing_last; assumption).
+  (* under monotone times nothing is raised *)
+  assert (Halone : mono_times first (l ++ [(c, k)]) = true -> k = elapsed_ticks t0 d (c_when c)).
+  { intros Hm. rewrite mono_times_snoc in Hm. apply andb_true_iff in Hm as [Hm1 Hm2].
+    apply Z.leb_le in Hm2. specialize (Hal Hm1). pose proof (alone_last l Hal) as A.
+    pose proof (elapsed_mono t0 d _ _ Hd Hm2). lia. }
+  split; [|exact Ht0']. split; [exact HA'|]. split.
+  - apply Forall2_set_nth; [assumption|]. split; [assumption|]. split.
+    + rewrite tick_chain_snoc, Hch. cbn [andb]. apply Z.eqb_eq. rewrite <- Hprev.
+      destruct (in_range t0 (c_when c)) eqn:Er.
+      * rewrite <- spec_tick_sat_in_range by assumption. exact Hk.
+      * exact Hk.
+    + intros Hm. rewrite alone_snoc. rewrite mono_times_snoc in Hm.
+      pose proof Hm as Hm'. apply andb_true_iff in Hm as [Hm1 _]. rewrite (Hal Hm1). cbn [andb fst snd].
+      apply Z.eqb_eq. apply Halone. rewrite mono_times_snoc. exact Hm'.
+  - (* the registry *)
+    intros Hmono Hrep.
+    assert (Hmono0 : Forall (fun l => mono_times first l = true) ls).
+    { eapply Forall_set_nth_inv; [exact El|exact Hmono|].
+      pose proof (Forall_set_nth_at _ _ _ _ _ _ El Hmono) as Hx. cbn beta in Hx.
+      rewrite mono_times_snoc in Hx. apply andb_true_iff in Hx as [Hx _]. exact Hx. }
+    pose proof (Forall_set_nth_at _ _ _ _ _ _ El Hmono) as Hml. cbn beta in Hml.
+    specialize (Halone Hml).
+    rewrite replays_ok_snoc in Hrep. apply andb_true_iff in Hrep as [Hrep0 Hrepc]. cbn [fst] in Hrepc.
+    destruct (HJ Hmono0 Hrep0) as [Hcnt Hel].
+    split; [|apply Forall_app; split; [assumption|constructor; [exact Halone|constructor]]].
+    destruct (consume_branch_registry _ _ _ _ _ _ _ Ec) as [_ [_ Hreg]].
+    intros h. rewrite hash_in_snoc. cbn [fst]. cbn [commits sh].
+    destruct (hash_in (c_hash c) seen) eqn:Ein.
+    + (* replayed: it is already listed under this very tick *)
+      assert (Hthere : (0 < c_parents c)%nat /\ In (c_hash c) (reg_get (commits (sh s)) k)).
+      { unfold hash_in in Ein. apply existsb_exists in Ein as [e [He Heq]]. apply Z.eqb_eq in Heq.
+        rewrite forallb_forall in Hrepc. specialize (Hrepc _ He).
+        rewrite <- Heq, Z.eqb_refl in Hrepc. cbn [negb orb] in Hrepc.
+        apply andb_true_iff in Hrepc as [Hpar Hwhen]. apply Nat.ltb_lt in Hpar. apply Z.eqb_eq in Hwhen.
+        split; [exact Hpar|].
+        rewrite Forall_forall in HL, Hel. specialize (HL _ He). specialize (Hel _ He).
+        apply listed_In in HL. rewrite Hel, <- Hwhen, <- Halone, Heq in HL. exact HL. }
+      destruct Hthere as [Hpar Hin].
+      destruct Hreg as [[-> _]|[_ Hnot]]; [|exfalso; apply (Hnot Hpar Hin)].
+      rewrite Hcnt. destruct (Z.eqb_spec (c_hash c) h) as [<-|N].
+      * rewrite Ein. reflexivity.
+      * rewrite orb_false_r. reflexivity.
+    + (* first time: not listed anywhere, appended once *)
+      assert (Hnot : ~ In (c_hash c) (reg_get (commits (sh s)) k)).
+      { intros Hin. apply reg_count_get in Hin. rewrite Hcnt, Ein in Hin. lia. }
+      destruct Hreg as [[_ [_ Hin]]|[-> _]]; [contradiction|].
+      rewrite reg_count_set_snoc, Hcnt.
+      destruct (Z.eq_dec (c_hash c) h) as [<-|N].
+      * rewrite Ein, Z.eqb_refl. reflexivity.
+      * destruct (Z.eqb_spec (c_hash c) h); [contradiction|]. rewrite orb_false_r. lia.
+Qed.
+
+Lemma core_other : forall s ls seen o s' r,
+  match o with OConsume _ _ _ => False | _ => True end ->
+  Inv_core s ls seen -> step s o = (s', r) ->
+  Inv_core s' (lin_step ls o r) (seen ++ ev_of o r) /\ tick0 (sh s') = tick0 (sh s).
+Proof.
+  intros s ls seen o s' r Ho [HA [HR HJ]] H.
+  pose proof (Inv_all_step _ _ _ _ _ _ I HA H) as HA'.
+  destruct o as [b index c|b n|bs|t dd]; [contradiction| | |]; cbn [step] in H.
+  - destruct (nth_error (brs s) b) as [br|] eqn:Eb.
+    + injection H as <- <-. cbn [ev_of lin_step sh brs] in *. rewrite app_nil_r in *.
+      destruct (Forall2_nth_error _ _ _ _ _ _ _ HR Eb) as [l [El Hl]]. rewrite El in *.
+      split; [|reflexivity]. split; [exact HA'|]. split.
+      * apply Forall2_app; [assumption|]. apply Forall2_repeat. assumption.
+      * intros Hm Hr. apply Forall_app in Hm as [Hm _]. exact (HJ Hm Hr).
+    + injection H as <- <-. cbn [lin_step ev_of] in *. rewrite app_nil_r in *.
+      split; [|reflexivity]. split; [exact HA'|]. split; assumption.
+  - injection H as <- <-. cbn [lin_step ev_of] in *. rewrite app_nil_r in *.
+      split; [|reflexivity]. split; [exact HA'|]. split; assumption.
+  - injection H as <- <-. cbn [lin_step ev_of] in *. rewrite app_nil_r in *.
+      split; [|reflexivity]. split; [exact HA'|]. split; assumption.
+Qed.
+
+Definition no_consume (o : op) : Prop := match o with OConsume _ _ _ => False | _ => True end.
+
+Lemma core_pre : forall s ls seen o s' r, no_consume o ->
+  Inv_core s ls seen /\ tick0 (sh s) = 0 -> step s o = (s', r) ->
+  Inv_core s' (lin_step ls o r) (seen ++ ev_of o r) /\ tick0 (sh s') = 0.
+Proof.
+  intros s ls seen o s' r Ho [HI Ht] H.
+  destruct (core_other _ _ _ _ _ _ Ho HI H) as [HI' Ht']. split; [exact HI'|congruence].
+Qed.
+
+Lemma core_rest : forall s ls seen o s' r, index_nonzero o = true ->
+  Inv_core s ls seen /\ tick0 (sh s) = t0 -> step s o = (s', r) ->
+  Inv_core s' (lin_step ls o r) (seen ++ ev_of o r) /\ tick0 (sh s') = t0.
+Proof.
+  intros s ls seen o s' r Ho [HI Ht] H.
+  destruct o as [b index c|b n|bs|t dd].
+  - destruct (nth_error (brs s) b) as [br|] eqn:Eb.
+    + eapply core_consume; eauto. unfold new_t0. cbn in Ho.
+      destruct (index =? 0); [discriminate|exact Ht].
+    + cbn [step] in H. rewrite Eb in H. injection H as <- <-. cbn. rewrite app_nil_r. split; assumption.
+  - destruct (core_other _ _ _ (OFork b n) _ _ I HI H) as [HI' Ht']. split; [exact HI'|congruence].
+  - destruct (core_other _ _ _ (OMerge bs) _ _ I HI H) as [HI' Ht']. split; [exact HI'|congruence].
+  - destruct (core_other _ _ _ (OFloor t dd) _ _ I HI H) as [HI' Ht']. split; [exact HI'|congruence].
+Qed.
+
+End Run.
+
+Lemma Inv_core_init : forall cfg first,
+  Inv_core (initialize (configure cfg)) first (init_sys cfg) [[]] [].
+Proof.
+  intros cfg first. split; [apply Inv_all_init|]. split.
+  - cbn. constructor; [|constructor]. split; [reflexivity|]. split; reflexivity.
+  - intros _ _. split; [intros h; reflexivity|constructor].
+Qed.
+
+(* the whole run: nothing but forks/merges, then the first commit with index 0 on an existing
+   branch, then any operations whose commits have an index other than 0 *)
+Theorem run_core : forall cfg pre b0 c0 rest s' outs,
+  let d := initialize (configure cfg) in
+  let ops := pre ++ OConsume b0 0 c0 :: rest in
+  0 < d ->
+  Forall no_consume pre ->
+  Forall (fun o => index_nonzero o = true) rest ->
+  run (init_sys cfg) ops = (s', outs) ->
+  nth_error outs (length pre) <> Some RBad ->
+  Inv_core d (c_when c0) s' (lineages ops outs [[]]) (consumed ops outs) /\
+  tick0 (sh s') = floor_time (c_when c0) d.
+Proof.
+  intros cfg pre b0 c0 rest s' outs d ops Hd Hpre Hrest Hrun Hbad. subst ops.
+  apply run_app in Hrun as [s1 [outs1 [outs2 [Hrun1 [Hrun2 [-> Hlen]]]]]].
+  apply run_cons in Hrun2 as [s2 [r [outs3 [Hstep [Hrun3 ->]]]]].
+  rewrite nth_error_app2 in Hbad by lia. rewrite Hlen, Nat.sub_diag in Hbad. cbn in Hbad.
+  (* phase 1 *)
+  assert (H1 : Inv_core d (c_when c0) s1 (lineages pre outs1 [[]]) ([] ++ consumed pre outs1) /\ tick0 (sh s1) = 0).
+  { eapply (run_invariant no_consume (fun s ls seen => Inv_core d (c_when c0) s ls seen /\ tick0 (sh s) = 0)).
+    - intros. eapply core_pre; eauto.
+    - exact Hpre.
+    - split; [apply Inv_core_init|reflexivity].
+    - exact Hrun1. }
+  destruct H1 as [H1 _].
+  (* the first commit *)
+  assert (H2 : Inv_core d (c_when c0) s2 (lin_step (lineages pre outs1 [[]]) (OConsume b0 0 c0) r)
+                 (([] ++ consumed pre outs1) ++ ev_of (OConsume b0 0 c0) r) /\
+               tick0 (sh s2) = floor_time (c_when c0) d).
+  { destruct (nth_error (brs s1) b0) as [br|] eqn:Eb.
+    - eapply core_consume; eauto.
+    - cbn [step] in Hstep. rewrite Eb in Hstep. injection Hstep as <- <-. congruence. }
+  (* the rest *)
+  rewrite lineages_app by exact Hlen. cbn [lineages].
+  rewrite consumed_app by exact Hlen. rewrite consumed_cons.
+  rewrite app_assoc.
+  eapply (run_invariant (fun o => index_nonzero o = true)
+            (fun s ls seen => Inv_core d (c_when c0) s ls seen /\ tick0 (sh s) = floor_time (c_when c0) d)).
+  - intros. eapply core_rest; eauto.
+  - exact Hrest.
+  - exact H2.
+  - exact Hrun3.
+Qed.
+
+(* ------------------------------------------------------------------ the statements of C19 over whole runs *)
+
+Lemma Forall2_In_r : forall A B (R : A -> B -> Prop) l1 l2 y,
+  Forall2 R l1 l2 -> In y l2 -> exists x, In x l1 /\ R x y.
+Proof.
+  intros A B R l1 l2 y H. induction H as [|a b l1 l2 Hab H IH]; intros Hin; [contradiction|].
+  destruct Hin as [<-|Hin].
+  - exists a. split; [left; reflexivity|assumption].
+  - destruct (IH Hin) as [x [Hx HR]]. exists x. split; [right; assumption|assumption].
+Qed.
+
+Lemma nondecreasing_all_ge : forall l p, nondecreasing p l = true -> Forall (fun x => p <= x) l.
+Proof.
+  induction l as [|a l IH]; intros p H; constructor.
+  - cbn in H. apply andb_true_iff in H as [H _]. apply Z.leb_le. exact H.
+  - cbn in H. apply andb_true_iff in H as [H1 H2]. apply Z.leb_le in H1.
+    eapply Forall_impl; [|apply (IH a H2)]. cbn. intros. lia.
+Qed.
+
+Lemma spec_t0_floor : forall first d, 0 < d -> spec_t0 first d = floor_time first d.
+Proof. intros. unfold spec_t0. symmetry. apply floor_time_eq. assumption. Qed.
+
+Section Statements.
+Variables (cfg : config) (pre : list op) (b0 : nat) (c0 : commit) (rest : list op) (s' : sys) (outs : list out).
+Let d := initialize (configure cfg).
+Let ops := pre ++ OConsume b0 0 c0 :: rest.
+Let t0 := spec_t0 (c_when c0) d.
+Hypothesis Hd : 0 < d.
+Hypothesis Hpre : Forall no_consume pre.
+Hypothesis Hrest : Forall (fun o => index_nonzero o = true) rest.
+Hypothesis Hrun : run (init_sys cfg) ops = (s', outs).
+Hypothesis Hfirst : nth_error outs (length pre) <> Some RBad.
+
+Lemma core_here : Inv_core d (c_when c0) s' (lineages ops outs [[]]) (consumed ops outs) /\ tick0 (sh s') = t0.
+Proof.
+  unfold t0. rewrite spec_t0_floor by exact Hd. apply run_core; assumption.
+Qed.
+
+(* the shared start of tick 0 is the start of the first analysed commit's period *)
+Theorem start_is_floor : tick0 (sh s') = t0 /\ (d | t0) /\ t0 <= c_when c0 < t0 + d.
+Proof.
+  destruct core_here as [_ H]. split; [exact H|]. unfold t0. rewrite spec_t0_floor by exact Hd.
+  destruct (floor_time_spec (c_when c0) d Hd) as [A [B _]]. split; assumption.
+Qed.
+
+(* C19_tick over whole histories *)
+Theorem history_tick_chain : forall l, In l (lineages ops outs [[]]) -> tick_chain t0 d 0 l = true.
+Proof.
+  intros l Hl. destruct core_here as [[_ [HR _]] _].
+  destruct (Forall2_In_r _ _ _ _ _ _ HR Hl) as [br [_ [_ [Hc _]]]].
+  unfold t0. rewrite spec_t0_floor by exact Hd. exact Hc.
+Qed.
+
+(* C19_commit_alone *)
+Theorem history_commit_alone : forall l, In l (lineages ops outs [[]]) ->
+  Sorted Z.le (c_when c0 :: times l) ->
+  forall c k, In (c, k) l ->
+    k = Z.quot (time_sub (c_when c) t0) d /\
+    (in_range t0 (c_when c) = true -> k = (c_when c - t0) / d).
+Proof.
+  intros l Hl Hs c k Hin. destruct core_here as [[_ [HR _]] _].
+  destruct (Forall2_In_r _ _ _ _ _ _ HR Hl) as [br [_ [_ [_ Ha]]]].
+  apply nondecreasing_Sorted in Hs. specialize (Ha Hs).
+  unfold alone in Ha. rewrite forallb_forall in Ha. specialize (Ha _ Hin). cbn in Ha. apply Z.eqb_eq in Ha.
+  unfold t0. rewrite spec_t0_floor by exact Hd. split; [exact Ha|].
+  intros Hr. rewrite Ha. rewrite (elapsed_in_range _ _ _ Hr).
+  apply Z.quot_div_nonneg; [|lia].
+  apply nondecreasing_all_ge in Hs. rewrite Forall_forall in Hs.
+  assert (c_when c0 <= c_when c) by (apply Hs; unfold times; apply (in_map (fun e => c_when (fst e)) _ _ Hin)).
+  pose proof (floor_time_bounds (c_when c0) d Hd). lia.
+Qed.
+
+(* C19_registry, second half *)
+Theorem registry_exactly_once :
+  (forall l, In l (lineages ops outs [[]]) -> Sorted Z.le (c_when c0 :: times l)) ->
+  replays_ok (consumed ops outs) = true ->
+  forall c k, In (c, k) (consumed ops outs) -> reg_count (commits (sh s')) (c_hash c) = 1%nat.
+Proof.
+  intros Hs Hr c k Hin. destruct core_here as [[_ [_ HJ]] _].
+  assert (Hm : Forall (fun l => mono_times (c_when c0) l = true) (lineages ops outs [[]])).
+  { apply Forall_forall. intros l Hl. apply nondecreasing_Sorted. apply Hs. exact Hl. }
+  destruct (HJ Hm Hr) as [Hcnt _]. rewrite Hcnt.
+  replace (hash_in (c_hash c) (consumed ops outs)) with true; [reflexivity|].
+  symmetry. unfold hash_in. apply existsb_exists. exists (c, k). split; [exact Hin|apply Z.eqb_refl].
+Qed.
+
+End Statements.
+
+(* the boolean domain test of the replay driver implies the shape assumed above *)
+Lemma shape_sound : forall ops outs c0, shape ops outs = Some c0 ->
+  exists pre b0 rest, ops = pre ++ OConsume b0 0 c0 :: rest /\ Forall no_consume pre /\
+    Forall (fun o => index_nonzero o = true) rest /\ nth_error outs (length pre) <> Some RBad.
+Proof.
+  induction ops as [|o ops IH]; intros outs c0 H; [discriminate|].
+  destruct outs as [|r outs]; [destruct o; discriminate|].
+  destruct o as [b i c|b n|bs|t dd].
+  - cbn [shape] in H.
+    destruct ((i =? 0) && forallb index_nonzero ops && negb (is_bad r)) eqn:E; [|discriminate].
+    injection H as <-. apply andb_true_iff in E as [E E3]. apply andb_true_iff in E as [E1 E2].
+    apply Z.eqb_eq in E1. subst i. exists [], b, ops. cbn. repeat split.
+    + constructor.
+    + apply Forall_forall. rewrite forallb_forall in E2. exact E2.
+    + intros Hb. injection Hb as ->. discriminate.
+  - cbn [shape] in H. destruct (IH _ _ H) as [pre [b1 [rest [-> [Hp [Hr Hb]]]]]].
+    exists (OFork b n :: pre), b1, rest. repeat split; [constructor; [exact I|assumption]|assumption|exact Hb].
+  - cbn [shape] in H. destruct (IH _ _ H) as [pre [b1 [rest [-> [Hp [Hr Hb]]]]]].
+    exists (OMerge bs :: pre), b1, rest. repeat split; [constructor; [exact I|assumption]|assumption|exact Hb].
+  - cbn [shape] in H. destruct (IH _ _ H) as [pre [b1 [rest [-> [Hp [Hr Hb]]]]]].
+    exists (OFloor t dd :: pre), b1, rest. repeat split; [constructor; [exact I|assumption]|assumption|exact Hb].
+Qed.
+
+Lemma tick_chain_cons : forall t0 d p c k l,
+  tick_chain t0 d p ((c, k) :: l) = true <->
+  k = (if in_range t0 (c_when c) then Z.max p ((c_when c - t0) / d)
+       else Z.max p (Z.quot (time_sub (c_when c) t0) d)) /\
+  tick_chain t0 d k l = true.
+Proof.
+  intros. cbn [tick_chain]. rewrite andb_true_iff, Z.eqb_eq. unfold spec_tick, spec_tick_sat. tauto.
+Qed.
+
+(* ------------------------------------------------------------------ what the duplicate scan guarantees for all inputs:
+   a commit that has parents whenever it is consumed is never listed twice under one tick *)
+
+Definition Inv_scan (h : Z) (s : sys) (ls : list (list event)) (seen : list event) : Prop :=
+  (forall e, In e seen -> c_hash (fst e) = h -> (0 < c_parents (fst e))%nat) ->
+  forall k, (count_occ Z.eq_dec (reg_get (commits (sh s)) k) h <= 1)%nat.
+
+Lemma Inv_scan_step : forall h s ls seen o s' r, True -> Inv_scan h s ls seen -> step s o = (s', r) ->
+  Inv_scan h s' (lin_step ls o r) (seen ++ ev_of o r).
+Proof.
+  intros h s ls seen o s' r _ HI H. destruct o as [b index c|b n|bs|t d]; cbn [step] in H.
+  - destruct (nth_error (brs s) b) as [br|] eqn:Eb.
+    + destruct (consume_branch (sh s) br index c) as [[sh' br'] k] eqn:Ec.
+      injection H as <- <-. unfold Inv_scan. cbn [ev_of sh]. intros Hpar k'.
+      assert (Hold : forall k, (count_occ Z.eq_dec (reg_get (commits (sh s)) k) h <= 1)%nat).
+      { apply HI. intros e He. apply Hpar. apply in_or_app. left. exact He. }
+      destruct (consume_branch_registry _ _ _ _ _ _ _ Ec) as [_ [_ [[-> _]|[-> Hnot]]]]; [apply Hold|].
+      destruct (Z.eq_dec k' k) as [->|N].
+      * rewrite reg_get_set_same, count_occ_app. cbn [count_occ].
+        destruct (Z.eq_dec (c_hash c) h) as [E|E].
+        -- assert (Hp : (0 < c_parents c)%nat).
+           { apply (Hpar (c, k)); [apply in_or_app; right; left; reflexivity|exact E]. }
+           specialize (Hnot Hp). rewrite E in Hnot.
+           apply (count_occ_not_In Z.eq_dec) in Hnot. rewrite Hnot. lia.
+        -- specialize (Hold k). lia.
+      * rewrite reg_get_set_other by assumption. apply Hold.
+    + injection H as <- <-. cbn. rewrite app_nil_r. exact HI.
+  - destruct (nth_error (brs s) b) as [br|] eqn:Eb; injection H as <- <-; cbn; rewrite app_nil_r; exact HI.
+  - injection H as <- <-. cbn. rewrite app_nil_r. exact HI.
+  - injection H as <- <-. cbn. rewrite app_nil_r. exact HI.
+Qed.
+
+Theorem registry_scan : forall cfg ops s' outs h, run (init_sys cfg) ops = (s', outs) ->
+  (forall c k, In (c, k) (consumed ops outs) -> c_hash c = h -> (0 < c_parents c)%nat) ->
+  forall k, (count_occ Z.eq_dec (reg_get (commits (sh s')) k) h <= 1)%nat.
+Proof.
+  intros cfg ops s' outs h H Hpar.
+  assert (HI : Inv_scan h s' (lineages ops outs [[]]) ([] ++ consumed ops outs)).
+  { eapply (run_invariant (fun _ => True) (Inv_scan h) (Inv_scan_step h)); eauto.
+    - apply Forall_forall. auto.
+    - intros _ k. cbn. lia. }
+  apply HI. intros [c k0] Hin. apply (Hpar c k0). exact Hin.
+Qed.
